@@ -384,6 +384,7 @@ def _compare_values(prog, text, sql_text, schema, db, pre, ref, sq, r, sem, dial
     s.set("timeout", timeout_ms)
     s.add(*db.domain)
     s.add(*pre.conds)
+    s.add(*getattr(sem, "nondet", []))       # instances on which ORDER BY .. LIMIT has to choose among ties are left out
     if extra_pre:
         s.add(*extra_pre(db))
     # vacuity guard: preconditions satisfiable
@@ -441,7 +442,10 @@ def replay(prog, text, sql_text, schema, data, ast=None, ordered=None, solver_s=
     if ast is not None:
         # encoder self-check on this instance
         try:
-            sq = S.SqlSem(cdb, "sqlite").run(ast)
+            csem = S.SqlSem(cdb, "sqlite")
+            sq = csem.run(ast)
+            if any(z3.is_false(z3.simplify(c_)) for c_ in csem.nondet):
+                return Outcome("unreproduced_nondet", prql=text, sql=sql_text, data=data, detail="ORDER BY .. LIMIT chooses among tied rows on this instance")
             if drop:
                 keep = [i for i in range(len(sq.cols)) if i not in drop]
                 sq = S.SRel([sq.cols[i] for i in keep], [Row(r_.present, [r_.cells[i] for i in keep]) for r_ in sq.rows], sq.order)
@@ -489,8 +493,9 @@ def check_equivalent(base, rw, driver, target="sql.sqlite", k=2, schema=None, ti
     except Unsupported as e:
         return Outcome("ref_unsupported", prql=tb, base=ta, detail=str(e))
     try:
-        A = S.SqlSem(db, dialect).run(ra["ast"])
-        B = S.SqlSem(db, dialect).run(rb["ast"])
+        semA, semB = S.SqlSem(db, dialect), S.SqlSem(db, dialect)
+        A = semA.run(ra["ast"])
+        B = semB.run(rb["ast"])
     except (S.BindError, Unsupported) as e:
         # the base program's own problems belong to C01/C03/C05; only an asymmetry matters here
         try:
@@ -561,6 +566,8 @@ def check_equivalent(base, rw, driver, target="sql.sqlite", k=2, schema=None, ti
     s.set("timeout", timeout_ms)
     s.add(*db.domain)
     s.add(*pre.conds)
+    s.add(*semA.nondet)
+    s.add(*semB.nondet)
     s.add(diff)
     ts = time.time()
     res = s.check()
